@@ -638,7 +638,22 @@ pub fn gen_read_scn(id: &str, rng: &Rng, tier: Tier) -> ReadScn {
                 unchanged: false,
                 iter_seed: rng.next_u64(),
             };
-            ReadScn { fmt, input, cfgs: vec![cfg], ops, mon, profile: class.into() }
+            let mut profile = class.to_string();
+            if id == "C20" && cfg.pause.is_none() && input.len() < 4000 && rng.chance(1, 10) {
+                // one owned-record iterator polled across refusals of a policy that agrees later:
+                // error items may come, but once the iterator has reported the end it stays there,
+                // and the size hint (checked by the stepped plan) keeps bracketing what is left
+                cfg.policy = PolicySpec::RefuseFirst(rng.range(1, 4));
+                let lens = rough_record_lens(&input);
+                if !lens.is_empty() {
+                    cfg.cap = (*rng.pick(&lens) / rng.range(1, 3)).max(3);
+                }
+                let k = rng.range(0, n + 1);
+                ops = (0..k).map(|_| Op::Next).collect();
+                ops.push(Op::Drain);
+                profile.push_str("/refuse_first");
+            }
+            ReadScn { fmt, input, cfgs: vec![cfg], ops, mon, profile }
         }
         "C17" => {
             if rng.chance(1, 3000) {
